@@ -23,6 +23,7 @@ U  == TrLeaf(<<"U2">>)                          \* one 2-byte rune
 UU == TrLeaf(<<"U3", "SP", "U2", "U4">>)        \* multi-byte runes around a blank
 WS == TrLeaf(<<"a", "LF", "NB", "b", "EM", "EM", "c">>)   \* line break, no-break space, em spaces: Unicode white space, NOT blanks
 N  == TrLeafT("int", <<"4", "2">>)
+F32 == TrLeafT("f32", <<"0", ".", "1">>)         \* a float32: its text is the SHORTEST decimal that gives the same float32 back
 B  == TrLeafT("bool", <<"t", "r", "u", "e">>)
 
 QT == <<"\"">>
